@@ -96,6 +96,8 @@ type world struct {
 	noRedirect  bool
 	passthrough bool // the current request carries the caller's own Authorization header
 	perJobFetch map[int]int     // token requests per job (concurrent mixes)
+	jobEvents   map[int][]string
+	jobAnswers  map[int][]string
 	cancelAt401 map[int]context.CancelFunc // jobs whose context is cancelled the moment the registry challenges them
 	ptable      []string        // parse results of headers outside Model/Challenge.v (for the model's parse_with)
 	ptableSeen  map[string]bool
@@ -468,7 +470,7 @@ func (w *world) RoundTrip(req *http.Request) (*http.Response, error) {
 		w.perReq[id]++
 	}
 	ev := fmt.Sprintf("R%d:%s", g.idx, w.projectAuthHeader(ah))
-	w.events = append(w.events, ev)
+	w.logEvent(req, ev)
 	if w.injectFailure() {
 		return nil, errInjected
 	}
@@ -491,7 +493,7 @@ func (w *world) RoundTrip(req *http.Request) (*http.Response, error) {
 		}
 	}
 	if ok {
-		w.answers = append(w.answers, "K")
+		w.logAnswer(req, "K")
 		if !w.noRedirect && (req.Method == http.MethodGet || req.Method == http.MethodHead) && w.r.Chance(1, 10) {
 			// redirect: to another registry (other host name), to the same host name on
 			// another port when such a registry exists, or to this registry's alias
@@ -516,7 +518,7 @@ func (w *world) RoundTrip(req *http.Request) (*http.Response, error) {
 			c() // the caller gives up while the challenge is on its way: it reaches cache.Set with a dead context
 		}
 	}
-	w.answers = append(w.answers, "U"+common.Hex(ch))
+	w.logAnswer(req, "U"+common.Hex(ch))
 	h := http.Header{}
 	if ch != "" {
 		h.Set("Www-Authenticate", ch)
@@ -547,6 +549,31 @@ func (w *world) injectFailure() bool {
 		return true
 	}
 	return false
+}
+
+// logEvent / logAnswer record a send and what came back, for the history as a whole and
+// (concurrent mixes) per job.
+func (w *world) logEvent(req *http.Request, ev string) {
+	w.events = append(w.events, ev)
+	if jb, ok := req.Context().Value(jobKey{}).(int); ok && w.jobEvents != nil {
+		w.jobEvents[jb] = append(w.jobEvents[jb], ev)
+	}
+}
+
+func (w *world) logAnswer(req *http.Request, a string) {
+	w.answers = append(w.answers, a)
+	if jb, ok := req.Context().Value(jobKey{}).(int); ok && w.jobAnswers != nil {
+		w.jobAnswers[jb] = append(w.jobAnswers[jb], a)
+	}
+}
+
+// projectToken names a token value the way the model does (B<i> A<i> I<i>.<serial>).
+func (w *world) projectToken(scheme auth.Scheme, t string) string {
+	h := "Bearer " + t
+	if scheme == auth.SchemeBasic {
+		h = "Basic " + t
+	}
+	return w.projectAuthHeader(h)[1:]
 }
 
 func oneLine(s string) string {
@@ -658,7 +685,7 @@ func (w *world) tokenEndpoint(req *http.Request, body []byte, dump string) (*htt
 		ev = fmt.Sprintf("D%s:%s:%s:%s:%s", forh, common.Hex(realm), common.Hex(service), common.Hex(scopeStr), basic)
 	}
 	if !followUp {
-		w.events = append(w.events, ev)
+		w.logEvent(req, ev)
 		if w.injectFailure() {
 			w.mu.Unlock()
 			return nil, errInjected
@@ -685,13 +712,13 @@ func (w *world) tokenEndpoint(req *http.Request, body []byte, dump string) (*htt
 	gate := w.gate
 	var out *http.Response
 	if !valid {
-		w.answers = append(w.answers, "F")
+		w.logAnswer(req, "F")
 		out = resp(req, common.Pick(w.r, []int{401, 403, 500}), nil, `{"errors":[{"code":"UNAUTHORIZED","message":"no"}]}`)
 	} else {
 		w.serial++
 		tk := fmt.Sprintf("tk-h%d-%d-%x", g.idx, w.serial, w.r.U64()&0xffffff)
 		w.tokens[tk] = &issued{reg: g.idx, serial: w.serial, scopes: scopes}
-		w.answers = append(w.answers, fmt.Sprintf("T%d", w.serial))
+		w.logAnswer(req, fmt.Sprintf("T%d", w.serial))
 		field := "token"
 		if req.Method == http.MethodPost || w.r.Bool() {
 			field = "access_token"
